@@ -2,5 +2,6 @@ SPECIFICATION Spec
 CONSTANTS
   Transfers = {1, 2, 3}
   Deviation = TRUE
-INVARIANTS OwnVerdict NoGoroutineBlocked
+  LateBegin = FALSE
+INVARIANTS OwnVerdict NoGoroutineBlocked C03_NoBeginAfterReset C08_NoBeginAfterLogout
 PROPERTIES WaitEnds
